@@ -211,7 +211,7 @@ def gen_cli(draw):
             'indent': draw(st.sampled_from([None, None, 0, 1, 2, 4, 8])),
             'scalar': draw(st.sampled_from([False, False, True])),
             'raw_path': draw(st.booleans()),
-            'malform': draw(st.sampled_from([None] * 8 + ['truncate', 'wrong-format', 'missing-file', 'construct-error']))}
+            'malform': draw(st.sampled_from([None] * 8 + ['truncate', 'wrong-format', 'missing-file', 'construct-error', 'undecodable-file']))}
 
 
 def make_invocation(recipe, tmp):
@@ -259,6 +259,12 @@ def make_invocation(recipe, tmp):
         pos.append(spec_text)
     if malform == 'missing-file':
         flags += ['--target-file', os.path.join(tmp, 'does-not-exist.json')]
+    elif malform == 'undecodable-file':
+        # a file that cannot be read as text at all (not UTF-8): unreadable, like a missing one
+        tp = os.path.join(tmp, 'target.bin')
+        with open(tp, 'wb') as f:
+            f.write(b'{"a": "\xff\xfe\xfa"}')
+        flags += ['--target-file', tp]
     elif tsource == 'argv':
         if ssource == 'file':
             # with a spec file the first positional would be taken as the spec: use a target file instead
